@@ -174,6 +174,8 @@ def fval(kind, v):
     return v
 
 
+FPT = "call vt_arr_int([{n}%x, int({n}%y * 4, C_INT)], 2_C_LONG)"
+
 FROWS = {
     "int_v": dict(decl="integer(C_INT) :: {n}", set="{n} = {v}", arg="{n}", fin="call vt_int(int({n}, C_LONG))", vk="int"),
     "long_v": dict(decl="integer(C_LONG) :: {n}", set="{n} = {v}", arg="{n}", fin="call vt_int({n})", vk="long"),
@@ -202,6 +204,10 @@ FROWS = {
     "arr_out": dict(decl="real(C_DOUBLE) :: {n}(4)", set="{n} = -1.0_C_DOUBLE", arg="{n}",
                     fout="call vt_arr_dbl({n}, int({m}, C_LONG))", vk="dbl"),
     "out_n": dict(decl="integer(C_INT) :: {n}", set="{n} = {v}", arg="{n}", fin="call vt_int(int({n}, C_LONG))", vk="int"),
+    # struct (docs/struct.rst): a bind(C) derived type passed by value, by pointer, by const reference
+    "pt_v": dict(decl="type(pt) :: {n}", set="{n} = pt({v}, 1.5_C_DOUBLE)", arg="{n}", fin=FPT, vk="int"),
+    "pt_pinout": dict(decl="type(pt) :: {n}", set="{n} = pt({v}, 2.5_C_DOUBLE)", arg="{n}", fin=FPT, fout=FPT, vk="int"),
+    "pt_cref": dict(decl="type(pt) :: {n}", set="{n} = pt({v}, -0.5_C_DOUBLE)", arg="{n}", fin=FPT, vk="int"),
 }
 
 FRESULTS = {
@@ -212,6 +218,7 @@ FRESULTS = {
     "enum": dict(decl="integer(C_INT) :: rv", fout="call vt_int(int(rv, C_LONG))"),
     "cstr": dict(decl="character(len=:), allocatable :: rv", fout="call vt_str(rv, len(rv, kind=C_LONG))"),
     "str_cref": dict(decl="character(len=:), allocatable :: rv", fout="call vt_str(rv, len(rv, kind=C_LONG))"),
+    "pt": dict(decl="type(pt) :: rv", fout="call vt_arr_int([rv%x, int(rv%y * 4, C_INT)], 2_C_LONG)"),
 }
 
 
